@@ -44,18 +44,11 @@ func c17Serve(c *core.Ctx) {
 		c.Errorf("R-C17-3: anchor: package %s not loaded", c17HS)
 		return
 	}
-	rt := namedType(c, c17HS, "runtime")
-	specT := namedType(c, c17HS, "Spec")
-	maxF := structField(c, c17HS, "Spec", "MaxConnections")
-	if rt == nil || specT == nil || maxF == nil {
+	hs := c17ResolveHS(c)
+	if hs == nil {
 		return
 	}
-	llFields := c17FieldsByType(rt, c17LLT)
-	if len(llFields) != 1 {
-		c.Errorf("R-C17-3: anchor: httpserver.runtime has %d fields of type *LimitListener, expected 1", len(llFields))
-		return
-	}
-	llField := llFields[0]
+	maxF, llField := hs.maxF, hs.llField
 
 	type site struct {
 		f    *flow.Func
@@ -303,112 +296,217 @@ func c17IsLimiterType(t types.Type) bool {
 	return ok && n.Obj().Pkg() != nil && n.Obj().Pkg().Path() == Mod+c17LL
 }
 
-// c17Reload: runtime.reload forwards nextSpec.MaxConnections to the existing listener.
+// c17HSRoles resolves the httpserver anchors by role: the struct that owns the *LimitListener field
+// (runtime), its *Spec field, the function that creates the limit listener (startServer) and the
+// reload entry point.
+type c17HSRoles struct {
+	rt      *types.Named
+	llField *types.Var
+	specF   *types.Var
+	maxF    *types.Var
+	start   map[*types.Func]bool // functions calling NewLimitListener
+}
+
+func c17ResolveHS(c *core.Ctx) *c17HSRoles {
+	pkg := c.Prog.Pkg(c17HS)
+	if pkg == nil {
+		c.Errorf("R-C17-3: anchor: package %s not loaded", c17HS)
+		return nil
+	}
+	r := &c17HSRoles{start: map[*types.Func]bool{}}
+	r.maxF = structField(c, c17HS, "Spec", "MaxConnections")
+	if r.maxF == nil {
+		return nil
+	}
+	scope := pkg.Types.Scope()
+	var cands []*types.Named
+	for _, name := range scope.Names() {
+		if tn, ok := scope.Lookup(name).(*types.TypeName); ok {
+			if n, ok := tn.Type().(*types.Named); ok && len(c17FieldsByType(n, c17LLT)) > 0 {
+				cands = append(cands, n)
+			}
+		}
+	}
+	if len(cands) != 1 {
+		c.Errorf("R-C17-3: anchor: %d struct types of %s hold a *LimitListener, expected 1 (the server runtime)", len(cands), c17HS)
+		return nil
+	}
+	r.rt = cands[0]
+	ll := c17FieldsByType(r.rt, c17LLT)
+	if len(ll) != 1 {
+		c.Errorf("R-C17-3: anchor: %s.%s has %d fields of type *LimitListener, expected 1", c17HS, r.rt.Obj().Name(), len(ll))
+		return nil
+	}
+	r.llField = ll[0]
+	sp := c17FieldsByType(r.rt, "*"+Mod+c17HS+".Spec")
+	if len(sp) != 1 {
+		c.Errorf("R-C17-3: anchor: %s.%s has %d fields of type *Spec, expected 1", c17HS, r.rt.Obj().Name(), len(sp))
+		return nil
+	}
+	r.specF = sp[0]
+	for _, g := range funcsByRole(c, c17HS, func(g *flow.Func, fd *ast.FuncDecl) bool {
+		for _, call := range calls(fd.Body, true) {
+			if fo := c17CalleeFunc(g, call); fo != nil && fo.FullName() == Mod+c17LL+".NewLimitListener" {
+				return true
+			}
+		}
+		return false
+	}) {
+		if fo := c17FuncObj(g); fo != nil {
+			r.start[fo] = true
+		}
+	}
+	return r
+}
+
+// c17Reload: the reload entry point forwards nextSpec.MaxConnections to the existing listener.
 func c17Reload(c *core.Ctx) {
-	f := fn(c, c17HS, "runtime", "reload")
-	rt := namedType(c, c17HS, "runtime")
-	maxF := structField(c, c17HS, "Spec", "MaxConnections")
-	specF := structField(c, c17HS, "runtime", "spec")
-	if f == nil || rt == nil || maxF == nil || specF == nil {
+	n0 := len(c.Errors)
+	r := c17ResolveHS(c)
+	if r == nil {
+		c.Errors = c.Errors[:n0] // already reported by c17Serve
 		return
 	}
-	llFields := c17FieldsByType(rt, c17LLT)
-	if len(llFields) != 1 {
-		return // reported by c17Serve
+	rtName := r.rt.Obj().Name()
+	isSetMax := func(g *flow.Func, call *ast.CallExpr) bool {
+		fo := c17CalleeFunc(g, call)
+		return fo != nil && fo.FullName() == "("+c17LLT+").SetMaxConnection"
 	}
-	llField := llFields[0]
-	cons := fname(c17HS, "runtime", "reload") + "|forwards the new MaxConnections"
-
-	// expressions derived from the parameters (the next spec)
-	params := map[types.Object]bool{}
-	for _, fld := range f.Type.Params.List {
-		for _, nm := range fld.Names {
-			if o := f.Info.Defs[nm]; o != nil {
-				params[o] = true
+	// the entry point: the method named reload; otherwise the only method of the runtime type that
+	// takes a *supervisor.Spec and whose reach forwards to SetMaxConnection
+	f := fnOpt(c, c17HS, rtName, "reload")
+	if f == nil {
+		cands := funcsByRole(c, c17HS, func(g *flow.Func, fd *ast.FuncDecl) bool {
+			if fd.Recv == nil || fd.Type.Params == nil {
+				return false
 			}
-		}
-	}
-	mentionsParam := func(e ast.Expr) bool {
-		found := false
-		ast.Inspect(e, func(n ast.Node) bool {
-			if id, ok := n.(*ast.Ident); ok && params[f.Info.Uses[id]] {
-				found = true
-			}
-			return true
-		})
-		return found
-	}
-	// local variables whose every assignment derives from a parameter
-	derived := map[types.Object]bool{}
-	assigned := map[types.Object][]ast.Expr{}
-	ast.Inspect(f.Body, func(n ast.Node) bool {
-		if as, ok := n.(*ast.AssignStmt); ok && len(as.Lhs) == len(as.Rhs) {
-			for i, l := range as.Lhs {
-				if o := c17Obj(f, l); o != nil {
-					assigned[o] = append(assigned[o], as.Rhs[i])
+			takesSuper := false
+			for _, fld := range fd.Type.Params.List {
+				if tv := g.Info.Types[fld.Type]; tv.Type != nil && tv.Type.String() == "*"+Mod+"pkg/supervisor.Spec" {
+					takesSuper = true
 				}
 			}
-		}
-		return true
-	})
-	for o, rhs := range assigned {
-		all := true
-		for _, e := range rhs {
-			if !mentionsParam(e) {
-				all = false
+			if !takesSuper {
+				return false
 			}
-		}
-		if all && !params[o] {
-			derived[o] = true
-		}
-	}
-	isNew := func(e ast.Expr) bool { // e denotes the next spec
-		e = ast.Unparen(e)
-		if o := c17Obj(f, e); o != nil {
-			return derived[o]
-		}
-		return mentionsParam(e)
-	}
-	var newSpecNil []string // nil keys of the derived *Spec variables
-	for o := range derived {
-		if p, ok := o.Type().(*types.Pointer); ok && p.Elem().String() == Mod+c17HS+".Spec" {
-			// any identifier of o renders the same; find one
-			ast.Inspect(f.Body, func(n ast.Node) bool {
-				if id, ok := n.(*ast.Ident); ok && c17Obj(f, id) == o && len(newSpecNil) < 8 {
-					newSpecNil = append(newSpecNil, f.NilKey(id))
-					return false
+			found := false
+			inspectReach(g, 3, func(h *flow.Func, n ast.Node) bool {
+				if call, ok := n.(*ast.CallExpr); ok && isSetMax(h, call) {
+					found = true
 				}
 				return true
 			})
+			return found
+		})
+		if len(cands) != 1 {
+			c.Errorf("R-C17-3: anchor: reload entry point of %s.%s not found (%d candidates by role)", c17HS, rtName, len(cands))
+			return
 		}
+		f = cands[0]
 	}
-	// isLL: e denotes runtime.limitListener (the field, or a local assigned once from it)
-	isLL := func(e ast.Expr) bool {
-		e = ast.Unparen(e)
-		if c17Field(f, e) == llField {
+	fd, _ := f.Node.(*ast.FuncDecl)
+	cons := fname(c17HS, rtName, fd.Name.Name) + "|forwards the new MaxConnections"
+	bind := c17NewBind(f, 3)
+	llField, specF, maxF := r.llField, r.specF, r.maxF
+
+	// isNew: e denotes (something derived from) the next spec, i.e. from a parameter of the entry point
+	var isNew func(e ast.Expr, depth int) bool
+	isNew = func(e ast.Expr, depth int) bool {
+		if depth > 6 {
+			return false
+		}
+		e = bind.resolve(e)
+		if o := c17Obj(f, e); o != nil {
+			if bind.isRootParam(o) {
+				return true
+			}
+			if _, isP := bind.owner[o]; isP {
+				return false
+			}
+			rhs := bind.asg[o]
+			if len(rhs) == 0 {
+				return false
+			}
+			for _, x := range rhs {
+				if x == nil || !isNew(x, depth+1) {
+					return false
+				}
+			}
 			return true
 		}
-		if o := c17Obj(f, e); o != nil && !params[o] && len(assigned[o]) == 1 {
-			return c17Field(f, assigned[o][0]) == llField
-		}
-		return false
-	}
-	var llNil []string
-	seenKey := map[string]bool{}
-	ast.Inspect(f.Body, func(n ast.Node) bool {
-		if e, ok := n.(ast.Expr); ok && isLL(e) {
-			if k := f.NilKey(e); !seenKey[k] {
-				seenKey[k] = true
-				llNil = append(llNil, k)
+		found := false
+		ast.Inspect(e, func(n ast.Node) bool {
+			if id, ok := n.(*ast.Ident); ok && !found {
+				if o := c17Obj(f, id); o != nil {
+					if _, isVar := o.(*types.Var); isVar && !o.(*types.Var).IsField() && isNew(id, depth+1) {
+						found = true
+					}
+				}
 			}
-		}
-		return true
-	})
+			return !found
+		})
+		return found
+	}
+	isLL := func(e ast.Expr) bool { return bind.fieldOf(e) == llField }
+	isSpecPtr := func(t types.Type) bool {
+		p, ok := t.(*types.Pointer)
+		return ok && p.Elem().String() == Mod+c17HS+".Spec"
+	}
+	// nil-keys (in every vocabulary of the reach) of the listener and of the next spec, and the
+	// "unchanged" comparisons nextSpec.MaxConnections == r.spec.MaxConnections
+	var llNil, newSpecNil []string
+	type cmp struct{ e *ast.BinaryExpr }
+	var same []cmp
+	seenKey := map[string]bool{}
+	isMaxOf := func(e ast.Expr, base func(x ast.Expr) bool) bool {
+		e = bind.resolve(e)
+		sel, ok := e.(*ast.SelectorExpr)
+		return ok && c17Field(f, sel) == maxF && base(sel.X)
+	}
+	isOldSpec := func(x ast.Expr) bool { return bind.fieldOf(x) == specF }
+	isNewSpec := func(x ast.Expr) bool { return bind.fieldOf(x) != specF && isNew(x, 0) }
+	for _, g := range bind.funcs {
+		ast.Inspect(g.Body, func(n ast.Node) bool {
+			e, ok := n.(ast.Expr)
+			if !ok {
+				return true
+			}
+			if be, ok := e.(*ast.BinaryExpr); ok && (be.Op == token.EQL || be.Op == token.NEQ) {
+				if (isMaxOf(be.X, isNewSpec) && isMaxOf(be.Y, isOldSpec)) || (isMaxOf(be.Y, isNewSpec) && isMaxOf(be.X, isOldSpec)) {
+					same = append(same, cmp{be})
+				}
+			}
+			switch e.(type) {
+			case *ast.Ident, *ast.SelectorExpr:
+			default:
+				return true
+			}
+			tv := f.Info.Types[e]
+			if tv.Type == nil {
+				return true
+			}
+			switch {
+			case tv.Type.String() == c17LLT && isLL(e):
+				if k := f.NilKey(e); !seenKey["l"+k] {
+					seenKey["l"+k] = true
+					llNil = append(llNil, k)
+				}
+			case isSpecPtr(tv.Type) && isNewSpec(e):
+				if k := f.NilKey(e); !seenKey["s"+k] {
+					seenKey["s"+k] = true
+					newSpecNil = append(newSpecNil, k)
+				}
+			}
+			return true
+		})
+	}
 
 	var sets []*ast.CallExpr
-	for _, call := range calls(f.Body, false) {
-		if fo := c17CalleeFunc(f, call); fo != nil && fo.FullName() == "("+c17LLT+").SetMaxConnection" {
-			sets = append(sets, call)
+	for _, g := range bind.funcs {
+		for _, call := range calls(g.Body, false) {
+			if isSetMax(g, call) {
+				sets = append(sets, call)
+			}
 		}
 	}
 	const (
@@ -419,6 +517,7 @@ func c17Reload(c *core.Ctx) {
 		evBadArg   = "ev:c17:setmax-wrong-arg"
 		evBadRecv  = "ev:c17:setmax-wrong-recv"
 		evNilSpecL = "ev:c17:next-spec-nil"
+		evSame     = "ev:c17:cap-unchanged"
 	)
 	latch := func(st *flow.State) {
 		for _, k := range llNil {
@@ -431,8 +530,49 @@ func c17Reload(c *core.Ctx) {
 				st.Set(evNilSpecL, flow.True)
 			}
 		}
+		// the cap is unchanged: only meaningful while r.spec still is the old spec
+		if st.Get(evSpecNew) == flow.Unknown {
+			for _, cm := range same {
+				t := c17Truth(f, st, cm.e)
+				if (cm.e.Op == token.EQL && t == flow.True) || (cm.e.Op == token.NEQ && t == flow.False) {
+					st.Set(evSame, flow.True)
+				}
+			}
+		}
 	}
+	isSpecStore := func(g *flow.Func, n ast.Node) bool {
+		as, ok := n.(*ast.AssignStmt)
+		if !ok {
+			return false
+		}
+		for _, l := range as.Lhs {
+			if c17Field(g, l) == specF {
+				return true
+			}
+		}
+		return false
+	}
+	inl := bind.inline(func(g *flow.Func, n ast.Node) bool {
+		if isSpecStore(g, n) {
+			return true
+		}
+		if call, ok := n.(*ast.CallExpr); ok {
+			if isSetMax(g, call) {
+				return true
+			}
+			if fo := c17CalleeFunc(g, call); fo != nil && r.start[fo.Origin()] {
+				return true
+			}
+		}
+		return false
+	})
 	res := analyze(c, f, flow.Config{
+		Inline: func(call *ast.CallExpr, callee *types.Func) *flow.Func {
+			if callee != nil && r.start[callee.Origin()] {
+				return nil // the server start is modelled by an event
+			}
+			return inl(call, callee)
+		},
 		OnNode: func(st *flow.State, n ast.Node) {
 			latch(st)
 			as, ok := n.(*ast.AssignStmt)
@@ -441,7 +581,7 @@ func c17Reload(c *core.Ctx) {
 			}
 			for i, l := range as.Lhs {
 				if c17Field(f, l) == specF {
-					if isNew(as.Rhs[i]) {
+					if isNew(as.Rhs[i], 0) {
 						st.Set(evSpecNew, flow.True)
 					} else {
 						st.Set(evSpecNew, flow.False)
@@ -456,8 +596,8 @@ func c17Reload(c *core.Ctx) {
 			if fo == nil {
 				return
 			}
-			switch fo.FullName() {
-			case "(" + c17LLT + ").SetMaxConnection":
+			switch {
+			case fo.FullName() == "("+c17LLT+").SetMaxConnection":
 				// receiver: the recorded listener
 				recvOK := false
 				if sel, ok := ast.Unparen(call.Fun).(*ast.SelectorExpr); ok && isLL(sel.X) {
@@ -465,18 +605,11 @@ func c17Reload(c *core.Ctx) {
 				}
 				argOK := false
 				if len(call.Args) == 1 {
-					a := c17StripConv(f, call.Args[0])
-					// a local assigned exactly once stands for its right-hand side
-					if o := c17Obj(f, a); o != nil && !params[o] && len(assigned[o]) == 1 {
-						a = c17StripConv(f, assigned[o][0])
-					}
-					if sel, ok := a.(*ast.SelectorExpr); ok && c17Field(f, sel) == maxF {
-						switch {
-						case isNew(sel.X):
-							argOK = true
-						case c17Field(f, sel.X) == specF && st.Is(evSpecNew, flow.True):
-							argOK = true
-						}
+					switch {
+					case isMaxOf(call.Args[0], isNewSpec):
+						argOK = true
+					case isMaxOf(call.Args[0], isOldSpec) && st.Is(evSpecNew, flow.True):
+						argOK = true
 					}
 				}
 				if !recvOK {
@@ -488,7 +621,7 @@ func c17Reload(c *core.Ctx) {
 				if recvOK && argOK {
 					st.Set(evSet, flow.True)
 				}
-			case "(*" + Mod + c17HS + ".runtime).startServer":
+			case r.start[fo.Origin()]:
 				if st.Is(evSpecNew, flow.True) {
 					st.Set(evRestart, flow.True)
 				}
@@ -503,6 +636,7 @@ func c17Reload(c *core.Ctx) {
 	var badSt *flow.State
 	var at ast.Node = f.Body
 	n := 0
+	usedSame := false
 	for _, ex := range res.Exits {
 		if ex.Kind != flow.ExitReturn {
 			continue
@@ -513,10 +647,21 @@ func c17Reload(c *core.Ctx) {
 		case st.Is(evBadArg, flow.True):
 			ok, why, badSt, at = false, "SetMaxConnection is called with something other than the NEW spec's MaxConnections (e.g. the old r.spec, or another field): the listener keeps or gets a wrong cap after an update", st, ex.At
 		case st.Is(evBadRecv, flow.True):
-			ok, why, badSt, at = false, "SetMaxConnection is called on a listener other than runtime.limitListener", st, ex.At
+			ok, why, badSt, at = false, "SetMaxConnection is called on a listener other than the one recorded in the runtime", st, ex.At
 		case st.Is(evSet, flow.True), st.Is(evNoL, flow.True), st.Is(evNilSpecL, flow.True), st.Is(evRestart, flow.True):
+		case st.Is(evSame, flow.True):
+			usedSame = true
 		default:
-			ok, why, badSt, at = false, "reload can finish with an existing listener and a non-nil next spec without forwarding nextSpec.MaxConnections to SetMaxConnection (and without restarting the server with the new spec): a run-time change of maxConnections is silently ignored", st, ex.At
+			ok, why, badSt, at = false, "reload can finish with an existing listener and a non-nil next spec without forwarding nextSpec.MaxConnections to SetMaxConnection (and without restarting the server with the new spec, and not because the cap is known to be unchanged): a run-time change of maxConnections is silently ignored", st, ex.At
+		}
+	}
+	if usedSame && ok {
+		// the "unchanged" shortcut compares with r.spec: r.spec must then follow every applied spec
+		for _, ex := range res.Exits {
+			st := ex.State
+			if ex.Kind == flow.ExitReturn && (st.Is(evSet, flow.True) || st.Is(evSame, flow.True)) && !st.Is(evSpecNew, flow.True) {
+				ok, why, badSt, at = false, "reload skips SetMaxConnection when nextSpec.MaxConnections equals r.spec.MaxConnections, but an exit that applied (or skipped) the cap does not store the next spec in r.spec: the value compared against goes stale and a later change back to it is skipped, leaving the listener with a larger cap than configured", st, ex.At
+			}
 		}
 	}
 	if len(sets) > 0 {
@@ -526,7 +671,7 @@ func c17Reload(c *core.Ctx) {
 		ok, why = false, "reload has no normal exit"
 	}
 	c.Check(ok, "R-C17-3", cons, pos(c, at),
-		sprintf("all %d exits: SetMaxConnection(nextSpec.MaxConnections) on runtime.limitListener, or no listener yet, or nil next spec, or restart with the new spec", n),
+		sprintf("all %d exits: SetMaxConnection(nextSpec.MaxConnections) on the recorded listener, or no listener yet, or nil next spec, or restart with the new spec, or cap unchanged w.r.t. r.spec (kept in sync)", n),
 		why, witness(badSt)...)
 }
 
